@@ -527,6 +527,250 @@ def gen_rewrite_cases(ctx, T, n_cases):
     return out
 
 
+# ------------------------------------------------------------------ the written object is not the owner of its atoms
+# Every object of the families above is a freshly built owner: each atom's back-reference (Atom.parent, Atom.idx)
+# points at the very object that is written.  The property speaks of ANY Molecule / Structure / ConformerEnsemble;
+# molli hands out objects for which that is not so -- Substructure views (mol.heavy, mol.substructure(...), in any
+# order), Conformer views (ens[k]), structures whose Atom objects were adopted by a second structure afterwards
+# (copy_atoms=False is the default; each atom remembers the LAST adopter, or nothing once that one is collected),
+# and new owners cloned / concatenated from any of these.  A case of this family is a small expression ("how") over
+# one base object; `view_eval` evaluates it twice in lock step: on the implementation (-> the object to write) and on
+# the description (-> what the text must say), without asking the implementation what it thinks.
+def _single(desc):
+    assert desc["kind"] in ("mol", "struct"), desc["kind"]
+    return desc
+
+
+def sub_desc(src, sel):
+    """description of src.substructure(sel): atoms picked in the order given, the bonds of src whose two ends were
+    picked, in src's order, numbered by position in the view; a Substructure is written by the Structure writer"""
+    src = _single(src)
+    pos = {}
+    for k, i in enumerate(sel):
+        pos.setdefault(i, k)
+    conf = src["confs"][0]
+    return {"kind": "struct", "route": 0, "name": None, "atoms": [src["atoms"][i] for i in sel],
+            "bonds": [[pos[i], pos[j], bt] for i, j, bt in src["bonds"] if i in pos and j in pos],
+            "confs": [{"coords": [conf["coords"][i] for i in sel], "charges": [(0.0).hex() for _ in sel]}],
+            "model": {"kind": "view", "parent": src, "sel": list(sel)}}
+
+
+def clone_desc(src, kind):
+    src = _single(src)
+    n = len(src["atoms"])
+    conf = src["confs"][0]
+    charges = list(conf["charges"]) if (kind == "mol" and src["kind"] == "mol") else [(0.0).hex()] * n
+    return {"kind": kind, "route": 0, "name": src["name"], "atoms": list(src["atoms"]), "bonds": [list(b) for b in src["bonds"]],
+            "confs": [{"coords": list(conf["coords"]), "charges": charges}]}
+
+
+def heavy_sel(T, src):
+    from molli.chem import Element
+    return [i for i, a in enumerate(src["atoms"]) if T["els"][a["e"]] != Element.H]
+
+
+def view_eval(T, how, base_obj, base_desc, keep):
+    """-> (object, description, tag); `keep` collects objects that must stay alive (adopters)."""
+    import gc, copy, pickle
+    import numpy as np
+    import molli as ml
+    from molli.chem import Bond
+    op = how["op"]
+    if op == "base":
+        return base_obj, base_desc, "owner"
+    if op == "concat":
+        parts = [view_eval(T, h, base_obj, base_desc, keep) for h in how["srcs"]]
+        res = ml.Structure.concatenate(*[p[0] for p in parts])
+        atoms, bonds, coords, off = [], [], [], 0
+        for _, dsc, _ in parts:
+            dsc = _single(dsc)
+            atoms += dsc["atoms"]
+            bonds += [[i + off, j + off, bt] for i, j, bt in dsc["bonds"]]
+            coords += dsc["confs"][0]["coords"]
+            off += len(dsc["atoms"])
+        return res, {"kind": "struct", "route": 0, "name": None, "atoms": atoms, "bonds": bonds,
+                     "confs": [{"coords": coords, "charges": [(0.0).hex()] * off}]}, "concat(" + ",".join(p[2] for p in parts) + ")"
+    obj, dsc, tag = view_eval(T, how["src"], base_obj, base_desc, keep)
+    inner = "" if tag == "owner" else "(" + tag.split("(")[0] + ")"
+    if op == "conformer":
+        assert dsc["kind"] == "ens"
+        c = how["conf"]
+        d1 = {"kind": "mol", "route": 0, "name": dsc["name"], "atoms": dsc["atoms"], "bonds": dsc["bonds"], "confs": [dsc["confs"][c]],
+              "model": {"kind": "conf", "ens": dsc, "conf": c}}
+        return obj[c], d1, "conformer" + inner
+    if op == "sub":
+        sel = how["sel"]
+        v = obj.substructure([obj.atoms[i] for i in sel] if how.get("by") == "atom" else list(sel))
+        return v, sub_desc(dsc, sel), "substructure" + inner
+    if op == "heavy":
+        return obj.heavy, sub_desc(dsc, heavy_sel(T, dsc)), "heavy" + inner
+    if op == "clone":
+        via = how["via"]
+        if via == "Molecule":
+            return ml.Molecule(obj), clone_desc(dsc, "mol"), "Molecule-clone" + inner
+        if via == "Structure":
+            return ml.Structure(obj), clone_desc(dsc, "struct"), "Structure-clone" + inner
+        d1 = {k: v for k, v in dsc.items() if k != "model"}
+        if via == "deepcopy":
+            return copy.deepcopy(obj), d1, "deepcopy" + inner
+        if via == "pickle":
+            return pickle.loads(pickle.dumps(obj)), d1, "pickle" + inner
+        raise ValueError(via)
+    if op == "adopt":
+        # a second structure takes (some of) the same Atom objects, in another order
+        cls = cls_of(how["cls"])
+        mine = [obj.atoms[i] for i in how["order"]]
+        yc = np.array([[float.fromhex(x) for x in row] for row in how["yconf"]["coords"]], dtype=float).reshape(len(mine), 3)
+        if how["route"] == "ctor":
+            y = cls(list(mine), name=how["yname"])
+            y.coords = yc
+        else:
+            y = cls(None, n_atoms=0, name=how["yname"])
+            for a, xyz in zip(mine, yc):
+                if how["cls"] == "mol":
+                    y.add_atom(a, xyz, 0.0)
+                else:
+                    y.add_atom(a, xyz)
+        if how["cls"] == "mol":
+            y.atomic_charges = [float.fromhex(x) for x in how["yconf"]["charges"]]
+        for i, j, bt in how["ybonds"]:
+            y.append_bond(Bond(y.atoms[i], y.atoms[j], btype=T["bts"][bt]))
+        if how["write"] == "y":
+            keep.append(obj)
+            yd = {"kind": how["cls"], "route": 0, "name": how["yname"], "atoms": [dsc["atoms"][i] for i in how["order"]],
+                  "bonds": [list(b) for b in how["ybonds"]], "confs": [how["yconf"]]}
+            return y, yd, "adopter" + inner
+        if how["drop"]:
+            del y
+            gc.collect()
+            return obj, dsc, "atoms-adopted-elsewhere-then-dropped" + inner
+        keep.append(y)
+        return obj, dsc, "atoms-adopted-elsewhere" + inner
+    raise ValueError(op)
+
+
+def build_view(T, d, keep):
+    import copy
+    base = copy.deepcopy(d["base"])
+    obj = build_obj(T, base)
+    if d.get("prewrite"):
+        obj.dumps_mol2()
+    w, eff, tag = view_eval(T, d["how"], obj, base, keep)
+    keep.append(obj)
+    return w, eff, tag
+
+
+def view_tag(how):
+    """the tag view_eval would give, from the expression alone (for the distribution)"""
+    op = how["op"]
+    if op == "base":
+        return "owner"
+    if op == "concat":
+        return "concat"
+    t = {"conformer": "conformer", "sub": "substructure", "heavy": "heavy"}.get(op)
+    if op == "clone":
+        t = how["via"] + ("-clone" if how["via"] in ("Molecule", "Structure") else "")
+    if op == "adopt":
+        t = "adopter" if how["write"] == "y" else "atoms-adopted-elsewhere" + ("-then-dropped" if how["drop"] else "")
+    it = view_tag(how["src"])
+    return t + ("" if it == "owner" else "(" + it.split("(")[0] + ")")
+
+
+def rand_sel(rng, n, allow_full=True):
+    """a selection of atom positions: never empty when n > 0; subsets, non-prefixes, reversed and shuffled orders"""
+    if n == 0:
+        return []
+    k = rng.randrange(6)
+    idx = list(range(n))
+    if k == 0 and allow_full:
+        sel = idx[::-1]                                   # everything, reversed
+    elif k == 1 and allow_full:
+        sel = idx[:]
+        rng.shuffle(sel)                                  # everything, permuted
+    elif k == 2:
+        sel = idx[rng.randrange(n):]                      # a suffix (not a prefix: positions shift)
+    elif k == 3:
+        sel = sorted(rng.sample(idx, rng.randrange(1, n + 1)))     # a subset in parent order
+    else:
+        sel = rng.sample(idx, rng.randrange(1, n + 1))    # a subset in any order
+    return sel
+
+
+def gen_view_cases(ctx, T, n_cases):
+    from molli.chem import Element
+    rng = ctx.rng
+    counter = [0, 0]
+    eH = T["epos"][Element.H]
+    out = []
+    kinds = ["sub", "heavy", "adopt-x", "conformer", "sub", "adopt-x", "clone", "subsub", "adopt-y", "concat", "sub-of-conf", "clone-of-view"]
+    for k in range(n_cases):
+        what = kinds[k % len(kinds)]
+        n = rng.choice([2, 3, 4, 5, 8, 12 if ctx.thorough else 8])
+        atoms, bonds = rand_topology(rng, T, counter, n, rng.choice([n, 2 * n, 3 * n]))
+        if what in ("heavy", "clone-of-view") or rng.random() < 0.3:     # hydrogens, preferably in front of heavy atoms
+            for i in range(n):
+                if rng.random() < (0.6 if i < n // 2 else 0.25):
+                    atoms[i]["e"] = eH
+        bkind = "ens" if what in ("conformer", "sub-of-conf") else ["mol", "struct", "mol", "ens"][rng.randrange(4)] if what == "adopt-x" \
+            else rng.choice(["mol", "struct"])
+        nc = rng.choice([1, 2, 3]) if bkind == "ens" else 1
+        base = {"kind": bkind, "route": rng.randrange(2), "name": rng.choice(NAME_POOL), "atoms": atoms, "bonds": bonds,
+                "confs": [rand_conf(rng, n) for _ in range(nc)]}
+        B = {"op": "base"}
+
+        def adopt(src, write, n_src=n):
+            order = rand_sel(rng, n_src)
+            cls = rng.choice(["struct", "mol"])
+            m = len(order)
+            yb = []
+            if m >= 2:
+                for _ in range(rng.choice([0, 1, m])):
+                    i, j = rng.sample(range(m), 2)
+                    yb.append([i, j, rng.randrange(len(T["bts"]))])
+            yconf = rand_conf(rng, m)
+            if cls == "struct":
+                yconf["charges"] = [(0.0).hex()] * m
+            return {"op": "adopt", "src": src, "order": order, "cls": cls, "route": rng.choice(["ctor", "add_atom"]), "yname": "adopter",
+                    "ybonds": yb, "yconf": yconf, "write": write, "drop": write == "x" and rng.random() < 0.3}
+
+        if what == "sub":
+            how = {"op": "sub", "src": B, "sel": rand_sel(rng, n), "by": rng.choice(["index", "atom"])}
+        elif what == "heavy":
+            how = {"op": "heavy", "src": B}
+        elif what == "subsub":
+            s1 = rand_sel(rng, n)
+            how = {"op": "sub", "src": {"op": "sub", "src": B, "sel": s1, "by": "index"}, "sel": rand_sel(rng, len(s1)), "by": rng.choice(["index", "atom"])}
+        elif what == "conformer":
+            how = {"op": "conformer", "src": B, "conf": rng.randrange(nc)}
+        elif what == "sub-of-conf":
+            cf = {"op": "conformer", "src": B, "conf": rng.randrange(nc)}
+            how = {"op": "heavy", "src": cf} if rng.random() < 0.3 else {"op": "sub", "src": cf, "sel": rand_sel(rng, n), "by": rng.choice(["index", "atom"])}
+        elif what == "adopt-x":
+            how = adopt(B, "x")
+            if bkind != "ens" and rng.random() < 0.3:      # ... and a view of the structure whose atoms now point elsewhere
+                how = {"op": "sub", "src": how, "sel": rand_sel(rng, n), "by": rng.choice(["index", "atom"])}
+        elif what == "adopt-y":
+            how = adopt(B, "y")
+        elif what == "clone":
+            how = {"op": "clone", "src": B, "via": rng.choice(["Molecule", "Structure", "deepcopy", "pickle"])}
+            if rng.random() < 0.5:                          # the clone's source is adopted elsewhere first
+                how["src"] = adopt(B, "x")
+        elif what == "clone-of-view":
+            inner = {"op": "heavy", "src": B} if rng.random() < 0.4 else {"op": "sub", "src": B, "sel": rand_sel(rng, n), "by": "index"}
+            how = {"op": "clone", "src": inner, "via": rng.choice(["Molecule", "Structure"])}
+        else:
+            # Structure.concatenate reads .charge / .mult of its arguments, which a Substructure does not have (not a
+            # matter of this property): views are promoted to structures first
+            parts = [B, {"op": "clone", "via": "Structure", "src": {"op": "sub", "src": B, "sel": rand_sel(rng, n), "by": "index"}}]
+            if rng.random() < 0.5:
+                parts.reverse()
+            if rng.random() < 0.3:
+                parts.append({"op": "clone", "via": "Molecule", "src": {"op": "heavy", "src": B}})
+            how = {"op": "concat", "srcs": parts}
+        out.append({"kind": "view", "base": base, "how": how, "prewrite": rng.random() < 0.25})
+    return out
+
+
 # ------------------------------------------------------------------ Coq terms
 def cq_input_atom(T, a, conf, i, wq):
     lbl = a["label"] or ""
@@ -631,7 +875,7 @@ EXPRESSIBLE = {"Single", "Double", "Triple", "Aromatic", "Amide", "Dummy", "NotC
 def judge_mol(T, d, conf, back, wq, tag=""):
     """compare one written molecule description with what was read back; yields (signature, text)."""
     import numpy as np
-    if back.name != d["name"]:
+    if d["name"] is not None and back.name != d["name"]:      # None: the written object has no name of its own (a view)
         yield ("C07:name", f"{tag}name {d['name']!r} read back as {back.name!r}")
     n = len(d["atoms"])
     if back.n_atoms != n:
@@ -684,20 +928,28 @@ def judge(T, d, log=None):
     """-> (violations [(sig, text)], text or None, back or None, description of the state that was written)"""
     import numpy as np
     import traceback
-    pre = ""
+    pre = suffix = ""
     if d["kind"] == "rewrite":
         try:
             obj, d = build_rewrite(T, d, log)
         except Exception as ex:
             return [(f"C07:edit-error:{type(ex).__name__}", f"write / edit / write again raised {type(ex).__name__}: {ex}")], None, None, None
         pre = "after write + edit: "
+    elif d["kind"] == "view":
+        keep = []            # adopters / parents stay alive until the text is written and read
+        try:
+            obj, d, tag = build_view(T, d, keep)
+        except Exception as ex:
+            return [(f"C07:view-error:{type(ex).__name__}", f"building the object to write raised {type(ex).__name__}: {ex}")], None, None, None
+        pre = f"written object = {tag}: "
+        suffix = ":written=" + tag
     else:
         obj = build_obj(T, d)
     try:
         text, back, text2 = observe(d, obj)
     except Exception as ex:  # the property promises that own output reads back
         where = "write" if "dump" in "".join(traceback.format_tb(ex.__traceback__)[-3:]) else "read"
-        return [(f"C07:{where}-error:{type(ex).__name__}", f"{pre}{d['kind']} round trip raised {type(ex).__name__}: {ex}")], None, None, d
+        return [(f"C07:{where}-error:{type(ex).__name__}{suffix}", f"{pre}{d['kind']} round trip raised {type(ex).__name__}: {ex}")], None, None, d
     out = []
     k = d["kind"]
     if k in ("mol", "struct"):
@@ -727,7 +979,7 @@ def judge(T, d, log=None):
     if text2 != text:
         sig, what = fixed_point_sig(text, text2)
         out.append((sig, "second write differs from the first: " + what))
-    return [(sg, pre + wh) for sg, wh in out], text, back, d
+    return [(sg + suffix, pre + wh) for sg, wh in out], text, back, d
 
 
 # ------------------------------------------------------------------ search on the table (when a table theorem breaks)
